@@ -179,3 +179,92 @@ Proof.
     exists (root pstate ccmd s, root pstate ccmd s, hr, true). split; [exact HR|reflexivity].
   - destruct (HP e Hin Hne) as (pe & Hpe & _ & Hpa). exists pe. split; [exact Hpe|apply Hpa; exact Ha].
 Qed.
+
+Lemma frame_hgt : forall s s' j, frame s s' -> hgt (cores s') j = hgt (cores s) j.
+Proof. intros s s' j F. apply hgt_static. exact (fr_static _ _ F). Qed.
+Lemma frame_up : forall s s' k a, frame s s' -> up (cores s') k a = up (cores s) k a.
+Proof. intros s s' k a F. apply up_static. exact (fr_static _ _ F). Qed.
+
+(** the general fork case of comparePopScore keeps the quiet invariant, whatever the scorer says *)
+Lemma quiet_compare_fork : forall sc cr s c bc bt s' r,
+    quiet s -> compare_fork pstate ccmd cexec cunexec sc cr s c bc bt = Ok (s', r) ->
+    quiet s' /\ frame s (mkSt pstate ccmd (blocks _ _ s') (root _ _ s') (tip _ _ s) (napp _ _ s') (pst _ _ s')) /\
+    (0 <= r -> tip _ _ s' = tip _ _ s) /\ (r < 0 -> tip _ _ s' = c).
+Proof.
+  intros sc cr s c bc bt s' r Q H. pose proof Q as (W & Ta & Hn). unfold compare_fork in H.
+  destruct (lca ccmd (blocks pstate ccmd s) _ (tip pstate ccmd s) c) as [fork|]; [|discriminate].
+  destruct (find ccmd (blocks pstate ccmd s) fork) as [bf|]; [|discriminate].
+  destruct (negb (cr _ _) && negb (cr _ _)).
+  { inversion H; subst s' r. split; [exact Q|]. split; [destruct s; apply frame_refl; exact W|]. split; [reflexivity|lia]. }
+  dbind H. destruct a as [s1 ok1].
+  destruct (apply_arith _ _ _ _ _ W E) as (F1 & T1 & N1f). destruct (apply_keep _ _ _ _ _ W E) as (K1f & K1t).
+  pose proof (fr_wf _ _ F1) as W1. pose proof (fun j => frame_hgt _ _ j F1) as HS1. pose proof (fr_tip _ _ F1) as Tp1. pose proof (fr_root _ _ F1) as R1.
+  destruct ok1; cbn [negb] in H.
+  2:{ inversion H; subst s' r. destruct (N1f eq_refl) as [A1 _]. pose proof (K1f eq_refl _ Ta) as Ta1.
+      split; [|split; [|split; [intros _; exact Tp1|lia]]].
+      - split; [exact W1|]. rewrite Tp1, R1, A1, ?HS1. split; [exact Ta1|exact Hn].
+      - rewrite <- Tp1. destruct s1; exact F1. }
+  destruct (T1 eq_refl) as (A1 & B1 & C1). specialize (K1t eq_refl).
+  pose proof (C1 _ Ta) as Ta1.
+  assert (NT : forall k, (k < Z.to_nat (hgt (cores s) c - hgt (cores s) fork))%nat -> up (cores s) k c <> tip _ _ s).
+  { intros k Hk Heq. apply (K1t k Hk). rewrite Heq. exact Ta. }
+  destruct (Z.leb 0 (sc s1 c)) eqn:Sg.
+  - (* chain A remains the best one *)
+    dbind H. inversion H; subst s' r. rename a into s2.
+    destruct (unapply_arith _ _ _ _ W1 E0) as (F2 & A2 & _).
+    assert (Ta2 : is_act (cores s2) (tip _ _ s)).
+    { apply (unapply_keep _ _ _ _ W1 E0 _ Ta1). intros k Hk. rewrite ?HS1 in Hk. rewrite (frame_up _ _ _ _ F1). apply NT. exact Hk. }
+    pose proof (frame_trans _ _ _ F1 F2) as F12. pose proof (fun j => frame_hgt _ _ j F12) as HS12.
+    split; [|split; [|split; [intros _; rewrite (fr_tip _ _ F12); reflexivity|apply Z.leb_le in Sg; lia]]].
+    + split; [exact (fr_wf _ _ F12)|]. rewrite (fr_tip _ _ F12), (fr_root _ _ F12), ?HS12. split; [exact Ta2|].
+      rewrite ?HS1 in A2. lia.
+    + rewrite <- (fr_tip _ _ F12). destruct s2; exact F12.
+  - (* chain B is better *)
+    apply Z.leb_gt in Sg.
+    dbind H. destruct a as [s2 vf].
+    destruct (uw_arith _ _ _ _ _ _ _ W1 E0) as (F2 & A2 & IA2).
+    destruct (uw_keep _ _ _ _ _ _ _ W1 E0) as (Hle2 & Hto2 & Hup2 & _ & K2).
+    rewrite ?HS1 in A2, Hle2, Hto2, Hup2. rewrite (frame_up _ _ _ _ F1) in Hup2.
+    pose proof (frame_trans _ _ _ F1 F2) as F12. pose proof (fun j => frame_hgt _ _ j F12) as HS12. pose proof (fr_wf _ _ F12) as W2.
+    assert (Hfv : hgt (cores s) fork <= hgt (cores s) vf) by (destruct Hto2 as [->|Hlt]; lia).
+    assert (Ta2 : is_act (cores s2) (tip _ _ s)).
+    { apply (K2 _ Ta1). intros k Hk. rewrite ?HS1 in Hk. rewrite (frame_up _ _ _ _ F1). apply NT. lia. }
+    dbind H. rename a into s3.
+    destruct (unapply_arith _ _ _ _ W2 E1) as (F3 & A3 & IA3).
+    pose proof (unapply_keep _ _ _ _ W2 E1) as K3.
+    rewrite ?HS12 in A3.
+    pose proof (frame_trans _ _ _ F12 F3) as F13. pose proof (fun j => frame_hgt _ _ j F13) as HS13. pose proof (fr_wf _ _ F13) as W3.
+    assert (Hvf3 : is_act (cores s3) vf).
+    { destruct Hto2 as [->|Hlt]; [apply IA3; exact Ta2|].
+      assert (Hfc : fork <> c) by (intro; subst fork; lia).
+      apply K3; [apply IA2; apply B1; exact Hfc|].
+      intros k Hk Heq. rewrite (frame_up _ _ _ _ F12) in Heq.
+      pose proof (chain_up_active s Q k) as Hact. rewrite Heq, Hup2 in Hact.
+      apply (K1t (Z.to_nat (hgt (cores s) c - hgt (cores s) vf))); [|exact Hact].
+      apply Nat2Z.inj_lt. rewrite !Z2Nat.id by lia. lia. }
+    dbind H. destruct a as [s4 ok2].
+    destruct (apply_arith _ _ _ _ _ W3 E2) as (F4 & T4 & N4f).
+    pose proof (frame_trans _ _ _ F13 F4) as F14. pose proof (fun j => frame_hgt _ _ j F14) as HS14. pose proof (fr_wf _ _ F14) as W4.
+    destruct ok2.
+    + inversion H; subst s' r. destruct (T4 eq_refl) as (A4 & B4 & C4). rewrite ?HS13 in A4.
+      split; [|split; [|split; [lia|intros _; reflexivity]]].
+      * unfold quiet, wf, cores. cbn [blocks root tip napp]. fold (cores s4). split; [exact W4|].
+        rewrite (fr_root _ _ F14), ?HS14. split.
+        -- destruct (N.eq_dec vf c) as [Heq|Hne]; [apply C4; rewrite <- Heq; exact Hvf3|apply B4; exact Hne].
+        -- lia.
+      * cbn [blocks root tip napp pst]. rewrite <- (fr_tip _ _ F14). destruct s4; exact F14.
+    + destruct (N4f eq_refl) as (A4 & B4).
+      dbind H. rename a into s5.
+      destruct (unapply_arith _ _ _ _ W4 E3) as (F5 & A5 & IA5). rewrite ?HS14 in A5.
+      pose proof (frame_trans _ _ _ F14 F5) as F15. pose proof (fun j => frame_hgt _ _ j F15) as HS15. pose proof (fr_wf _ _ F15) as W5.
+      dbind H. destruct a as [s6 ok3].
+      destruct (apply_arith _ _ _ _ _ W5 E4) as (F6 & T6 & _).
+      destruct ok3; inversion H; subst s' r. destruct (T6 eq_refl) as (A6 & B6 & C6). rewrite ?HS15 in A6.
+      pose proof (frame_trans _ _ _ F15 F6) as F16. pose proof (fun j => frame_hgt _ _ j F16) as HS16.
+      split; [|split; [|split; [intros _; exact (fr_tip _ _ F16)|lia]]].
+      * split; [exact (fr_wf _ _ F16)|]. rewrite (fr_tip _ _ F16), (fr_root _ _ F16), ?HS16. split.
+        -- destruct (N.eq_dec fork (tip _ _ s)) as [Heq|Hne]; [|apply B6; exact Hne].
+           apply C6. rewrite <- Heq. apply IA5. apply B4. exact Hvf3.
+        -- lia.
+      * rewrite <- (fr_tip _ _ F16). destruct s6; exact F16.
+Qed.
